@@ -52,7 +52,7 @@ def tasks(tier):
     for mode, lay in (("absolute", "4+2"), ("relative cp", "4+2"), ("plateau", "12+0")):
         ts.append({"name": f"init-guess:{mode}", "fn": "t_init",
                    "args": {"mode": mode, "layout": lay, "model_key": "hertz_cone"},
-                   "witnesses": ["optimiser-called"], "max_paths": 8000})
+                   "witnesses": ["optimiser-called"] + (["full-scan"] if mode == "plateau" else []), "max_paths": 8000})
     if tier == "thorough":
         ts.append({"name": "glue:para:4+2:ksym", "fn": "t_glue",
                    "args": {"model_key": "hertz_para", "layout": "4+2", "segment": 0, "weighting": "on",
@@ -132,6 +132,34 @@ def t_init(mode, layout, model_key):
     calls = symlmfit.CALLS
     if calls:
         witness("optimiser-called")
+    if mode == "plateau" and calls:
+        # the scan of lower range bounds is laid out on the MEASURED axis:
+        # bound j = linspace(min x, 0.05 min x, n)[j]; the points handed to
+        # scan fit j are the measured samples inside [bound j, max(range_x)],
+        # each multiplied by k
+        n_scan = 2
+        n = len(x)
+        xmin = x[0]
+        for v in x[1:]:
+            xmin = sym_ite(v < xmin, v, xmin)
+        hi = sym_ite(a >= b, a, b)
+        # (a scan fit with too few points makes no optimiser call: the calls can
+        # be attributed to scan fits only when all n+1 were made; the first call
+        # is always scan fit 0)
+        scan_calls = calls[:n_scan] if len(calls) == n_scan + 1 else calls[:1]
+        if len(calls) == n_scan + 1:
+            witness("full-scan")
+        for j, c in enumerate(scan_calls):
+            lo_j = xmin + Fr(j, n_scan - 1) * (xmin * Fr(1, 20) - xmin)
+            xa = c["args"][0]
+            pres = xa._present_list()
+            if len(xa.elems) != n:
+                prove(f"scan-points-positional[call {j}]", False, info={"len": len(xa.elems)})
+                continue
+            for i in range(n):
+                want = fc.in_range(x[i], seg[i], 0, lo_j, hi)
+                prove(f"scan-range-in-measured-units[call {j}][{i}]", same(pres[i], want))
+                prove(f"scan-abscissa-is-k-times-measured[call {j}][{i}]", same(xa.elems[i], x[i] * k))
     for j, c in enumerate(calls):
         st = {s[0]: s for s in c["params_state"]}
         prove(f"initial-cp-in-measured-units[call {j}]",
@@ -208,9 +236,10 @@ for nm, p in P.items():
         p.value = init[nm]
 cp_user = P["contact_point"].value
 state0 = {{nm: p.__getstate__()[:6] for nm, p in P.items()}}
-seen = []
+seen = []; seen_x = []
 def fake_minimize(fcn, params, method="leastsq", args=(), **kw):
     seen.append(params["contact_point"].value)
+    seen_x.append(np.array(args[0], copy=True))
     out = copy.deepcopy(params)
     o = opts.get(len(seen) - 1, {{}})
     for nm, p in out.items():
@@ -232,6 +261,14 @@ try:
 except (nfit.FitDataError, nfit.FitKeyError, KeyError) as e:
     print("refused", type(e).__name__)
 bad = []
+if mode == "plateau" and seen_x:
+    xs = x[seg == 0]; xmin = xs.min(); hi = max(ra, rb)
+    grid = np.linspace(xmin, xmin * .05, 2)
+    for j in (range(2) if len(seen_x) == 3 else range(1)):
+        lo = grid[j]
+        want = xs * k if lo == hi else xs[(xs >= lo) & (xs <= hi)] * k
+        if want.shape != seen_x[j].shape or not np.allclose(want, seen_x[j], rtol=1e-12, atol=0):
+            bad.append(f"scan fit {{j}}: optimiser got {{seen_x[j]}} instead of k * measured samples in [{{lo}}, {{hi}}] = {{want}}")
 for j, c in enumerate(seen):
     if abs(c - cp_user * k) > 1e-12 * abs(cp_user * k):
         bad.append(f"call {{j}}: initial contact point {{c}} != k*cp_user {{cp_user * k}}")
